@@ -86,8 +86,10 @@ func (c *Collection) CreateIndex(indexName string, expression string, filterExpr
 
 	// Note that we prepend `id` to the index columns, since the Query interface always
 	// evaluates a SELECT statement that matches the `id` with the specified Collection.
-	stmt := fmt.Sprintf(`CREATE INDEX %s ON documents (id, %s) WHERE value NOT NULL`,
-		indexName, expression)
+	// The index covers this collection's documents only: the expression may fail on what other
+	// collections store (e.g. a JSON operator on a raw body), which would make THEIR writes fail.
+	stmt := fmt.Sprintf(`CREATE INDEX %s ON documents (id, %s) WHERE collection=%d AND value NOT NULL`,
+		indexName, expression, c.id)
 	if filterExpression != "" {
 		stmt += ` AND ` + filterExpression
 	}
